@@ -225,4 +225,56 @@ example : total (· + ·) (valsOf 1 (userContribs demoRun)) = some 13 := by deci
 example : hopPath (nlnrHop 2) 3 3 0 = [1, 3] := by decide
 example : hopPath (nlnrHop 3) 7 3 1 = [2, 8, 7] := by decide
 
+
+/-! ### the operator needs no neutral element
+
+`total` folds a NON-EMPTY list (`none` stands for "no value yet", it is not a value of `V`),
+so none of the theorems above injects a neutral or value-initialised element into a fold:
+the specification is meaningful for `min`, product, bitwise and, … where `T{}` is absorbing.
+An implementation that seeds a partial result with `T{}` instead of the first contributed
+value therefore violates `reduce_quiescent_spec` whenever `T{}` is not neutral. -/
+
+theorem total_singleton {V : Type} (op : V → V → V) (a : V) : total op [a] = some a := rfl
+
+/-- the fold stays inside every set that is closed under the operator and contains the folded values -/
+theorem total_closed {V : Type} (op : V → V → V) (P : V → Prop) (hop : ∀ a b, P a → P b → P (op a b))
+    (l : List V) (h : ∀ x ∈ l, P x) (m : V) (hm : total op l = some m) : P m := by
+  induction l generalizing m with
+  | nil => cases hm
+  | cons a l ih =>
+    simp only [total_cons] at hm
+    cases ht : total op l with
+    | none => rw [ht] at hm; simp at hm; subst hm; exact h a (by simp)
+    | some b =>
+      rw [ht] at hm; simp at hm; subst hm
+      exact hop a b (h a (by simp)) (ih (fun x hx => h x (by simp [hx])) b ht)
+
+/-- **reduce_result_closed**: the entry `reduce_by_key_map` stores for a key lies in every
+operator-closed set containing the values contributed for that key — e.g. with `min` over
+values ≥ 10 it is ≥ 10, never the 0 of a value-initialised accumulator. -/
+theorem reduce_result_closed {V : Type} (nc : NetCfg V) [Std.Associative nc.op] [Std.Commutative nc.op]
+    (P : V → Prop) (hop : ∀ a b, P a → P b → P (nc.op a b))
+    (nranks : Nat) (pairs : List (Key × V)) (ls : List (NetLabel V)) (n' : Net V)
+    (h : netRun nc (Net.init nranks []) ls = some n') (hq : netQuiet n')
+    (hp : (userContribs ls).Perm pairs) (k : Key) (hP : ∀ p ∈ pairs, p.1 = k → P p.2)
+    (m : V) (hm : storedOf k n'.stored = some m) : P m := by
+  have h1 := (reduce_by_key_spec nc nranks pairs ls n' h hq hp k).1
+  rw [h1] at hm
+  apply total_closed nc.op P hop (valsOf k pairs) _ m hm
+  intro x hx
+  simp only [valsOf, List.mem_map, List.mem_filter] at hx
+  obtain ⟨p, ⟨hp1, hp2⟩, rfl⟩ := hx
+  exact hP p hp1 (by simpa using hp2)
+
+/-- the demo system with `min`: no neutral element exists in `Nat` -/
+def demoMin : NetCfg Nat := { demoCfg with op := min }
+instance : Std.Associative demoMin.op := ⟨Nat.min_assoc⟩
+instance : Std.Commutative demoMin.op := ⟨Nat.min_comm⟩
+
+/-- same history as `demoRun` (re-entry, combining on rank 1, owner bypass): key 1 ends as
+min 10 3 = 3 — a `T{}`-seeded accumulator would have produced 0 -/
+example : (netRun demoMin (Net.init 4 []) demoRun).map (·.stored) = some [(5, 7), (1, 3)] := by decide
+example : total min (valsOf 1 (userContribs demoRun)) = some 3 := by decide
+example : omerge min (some 0) (total min (valsOf 1 (userContribs demoRun))) = some 0 := by decide
+
 end YgmVerif.Cache
